@@ -96,7 +96,13 @@ def verify(interp, target, timeout_ms=10000, verbose=False, only=None):
     c = REGISTRY[target]; interp.contracts = REGISTRY
     results = []; npaths = 0; pruned = 0
     def discharge(name, pc, goal, tag, meta):
-        v = smt.prove(pc, goal, timeout_ms)
+        import os, sys, time as _t
+        _t0 = _t.time()
+        # a unit that already has three undischarged obligations is decided (refuted / undecided) whatever the rest yields: the remaining
+        # obligations get a short budget so that a broken unit reports in minutes, not after (number of obligations) x (full budget)
+        nfail = sum(1 for r_ in results if r_.verdict.status != "proved" and "CANARY" not in r_.name)
+        v = smt.prove(pc, goal, timeout_ms if nfail < 3 else min(timeout_ms, 4000))
+        if os.environ.get("PYVC_TRACE"): print(f"[trace] {name} {tag} {v!r} wall={_t.time() - _t0:.1f}s", file=sys.stderr, flush=True)
         if v.status == "proved" and v.backend != "trivial" and "CANARY" not in name:
             # vacuity guard per obligation: the assumptions it was proved under must be satisfiable
             if smt.satisfiable(pc, 3000) == z3.unsat:
@@ -109,6 +115,8 @@ def verify(interp, target, timeout_ms=10000, verbose=False, only=None):
                 # that is "needs contract" (undecided), never a violation - the property's bounded harness, if any, decides
                 v = smt.Verdict("unknown", "z3", v.secs, detail="NEEDS-CONTRACT: depends on loop-carried local(s) " + ", ".join(h.split("!")[0] for h in hv) + " not described by the loop invariant")
                 meta["needs_contract"] = True
+        if v.status == "unknown" and "unit wall-clock budget exhausted" in (v.detail or ""): meta["needs_contract"] = True      # undecided for lack of time: the bounded harness decides
+        if getattr(interp, "derived_used", None): meta["derived_attrs"] = sorted(interp.derived_used)
         r = Result(f"{target}.{name}", v, tag, meta)
         if v.status != "proved" and "CANARY" not in name and not meta.get("needs_contract"):
             k = excluded_by_known(r.name, tag, pc, toz3(goal), timeout_ms)
@@ -206,8 +214,9 @@ def _smt2(pc, goal):
     return t if len(t) < 6000 else t[:6000] + "\n; ... truncated"
 
 def _model(pc):
-    s = z3.Solver(); s.add(*pc)
-    return s.model() if s.check() == z3.sat else None
+    from .smt import guarded_check
+    s = z3.Solver(); s.set("timeout", 20000); s.add(*pc)
+    return s.model() if guarded_check(s, 20000) == z3.sat else None
 
 
 # ---------------------------------------------------------------------- loops
